@@ -146,7 +146,7 @@ func (i *interpreter) bigGet(p *value) bigVal {
 	return bv
 }
 
-var bigReadOnly = map[string]bool{"Bit": true, "Uint64": true, "Int64": true, "Sign": true, "Cmp": true, "Bytes": true, "FillBytes": true, "BitLen": true, "IsUint64": true}
+var bigReadOnly = map[string]bool{"Bit": true, "Uint64": true, "Int64": true, "Sign": true, "Cmp": true, "Bytes": true, "Bits": true, "FillBytes": true, "BitLen": true, "IsUint64": true}
 
 // bigResolve replaces symbolic-pointer operands (see itePtr) by a temporary
 // object holding the ite of the alternatives' values; a symbolic-pointer
@@ -644,6 +644,39 @@ func init() {
 		out := make([]value, n)
 		for k := 0; k < n; k++ {
 			out[n-1-k] = i.mkval(tt.Extract(xv.abs, 8*k+7, 8*k), types.Uint8)
+		}
+		return out
+	})
+	// Bits returns the magnitude as little-endian words; the number of words
+	// (a slice length) is case-split over its feasible values.  The result is
+	// a copy: writes through it do not reach the model value.
+	reg("Bits", func(fr *frame, args []value) value {
+		i := fr.i
+		x := args[0].(*value)
+		if !bigAnySym(i, x) {
+			return notHandled{}
+		}
+		xv := i.bigGet(x)
+		tt := i.tt
+		W := i.bigW()
+		nw := (W + 63) / 64
+		cnt := tt.Const(64, 0)
+		for k := 0; k < nw; k++ {
+			hi := 64*k + 63
+			if hi >= W {
+				hi = W - 1
+			}
+			nz := tt.Not(tt.Eq(tt.Extract(xv.abs, hi, 64*k), tt.Zero(hi-64*k+1)))
+			cnt = tt.Ite(nz, tt.Const(64, uint64(k+1)), cnt)
+		}
+		n := int(i.concretize(cnt, "big.Int.Bits length"))
+		out := make([]value, n)
+		for k := 0; k < n; k++ {
+			hi := 64*k + 63
+			if hi >= W {
+				hi = W - 1
+			}
+			out[k] = i.mkval(tt.ZExt(tt.Extract(xv.abs, hi, 64*k), 64), types.Uint)
 		}
 		return out
 	})
